@@ -106,9 +106,26 @@ fn lib_case(shape: &[usize], rot: usize, p: usize, fmt: &str) -> J {
     ])
 }
 
+/// Mostly-zero spectra and runs of (nearly) equal neighbours: kind 0 the first and the last entry
+/// only, 1 the first three entries only (a zero tail), 2 the last entry only (a zero front), 3 every
+/// 600th entry, 4 neighbours that differ by less than 2.2e-16 without being equal, 5 runs of equal
+/// non-zero values with a change in between.
+fn sparse_array(shape: &[usize], kind: usize) -> RefArray {
+    let cells: usize = shape.iter().product();
+    RefArray::from_fn(shape, |f, _| match kind {
+        0 => if f == 0 || f + 1 == cells { 7.5 } else { 0.0 },
+        1 => if f < 3 { (f + 1) as f64 } else { 0.0 },
+        2 => if f + 1 == cells { 3.25 } else { 0.0 },
+        3 => if f % 600 == 599 { f as f64 + 0.5 } else { 0.0 },
+        4 => [1e-17, 3e-17, 9e-17, 1.1e-16, 2e-16, 2.00000000000000004e-16][f % 6] * (1.0 + (f / 6) as f64),
+        _ => [2.5, 2.5, 2.5, 2.5000000000000004, 2.5, 0.0, 0.0, 1e300, 1e300][f % 9],
+    })
+}
+
 fn check_lib(shape: &[usize], rot: usize, p: usize, scratch: &Scratch) -> Vec<Viol> {
-    // rot >= 1000 selects the large-magnitude alphabet (many significant digits beyond 2^53)
-    let x = if rot >= 1000 { large_array(shape, rot - 1000) } else { special_array(shape, rot) };
+    // rot >= 1000 selects the large-magnitude alphabet (many significant digits beyond 2^53),
+    // rot >= 2000 the sparse / nearly-equal-neighbours alphabet
+    let x = if rot >= 2000 { sparse_array(shape, rot - 2000) } else if rot >= 1000 { large_array(shape, rot - 1000) } else { special_array(shape, rot) };
     check_lib_x(&x, shape, rot, p, scratch)
 }
 
@@ -622,6 +639,29 @@ pub fn run(tier: Tier) -> i32 {
         for p in 0..=17 {
             singles.push((r, p));
         }
+    }
+    {
+        // sparse spectra and runs of equal or nearly equal neighbours
+        let mut sj: Vec<(Vec<usize>, usize, usize)> = Vec::new();
+        for shape in [vec![23usize, 23], vec![9, 9, 9], vec![1100], vec![64], vec![130], vec![5, 13]] {
+            for kind in 0..6usize {
+                for p in [0usize, 6, 17, 20] {
+                    sj.push((shape.clone(), 2000 + kind, p));
+                }
+            }
+        }
+        let res = par_map(sj.len(), |i| check_lib(&sj[i].0, sj[i].1, sj[i].2, &scratch));
+        for v in res.into_iter().flatten() {
+            rep.violation(v.0, v.1, v.2);
+        }
+        rep.part(Part {
+            name: "lib: sparse spectra and runs of equal or nearly equal neighbours".into(),
+            evaluations: sj.len() as u64,
+            nontrivial: sj.len() as u64,
+            note: "six shapes of 64 .. 1 100 entries x six fillings (first and last entry only, a zero tail, a zero front, every 600th entry, neighbours closer than 2.2e-16 that are not equal, runs of equal values with a change in between) x precision 0 / 6 / 17 / 20 through both formats: every value read back within the format's tolerance".into(),
+            exhaustive: true,
+            extra: vec![],
+        });
     }
     let res = par_map(singles.len(), |i| check_lib(&[1], singles[i].0, singles[i].1, &scratch));
     for v in res.into_iter().flatten() {
